@@ -377,17 +377,18 @@ ASSUMPTIONS = [
     "A6 warnings.warn does not raise",
 ]
 NOT_COVERED = {
-    "C13": ["compound locations (_lift_over_chromosome_location_compound_interval)", "alternative_genomic_sequence text "
-            "(single variant and collection; whole chromosome and chunk)", "incorporate_variants end-to-end",
+    "C13": ["compound locations (_lift_over_chromosome_location_compound_interval)", "incorporate_variants end-to-end",
             "collections of more than two variants (induction over the composition lemma)",
             "VCF records grouped by phase set (io/vcf/parser.py needs PyVCF and io.models: neither importable)"],
     "C18": ["GenBank features grouped by locus tag under permutation of records (io/genbank/parser.py does not import "
             "here; Biopython feature objects)", "io/gff3/parser.py:filter_and_sort_qualifiers"],
-    "C01": ["CompoundInterval.relative_interval_to_parent_location and CompoundInterval._location_relative_to "
-            "(block-list rebuild followed by constructor re-sort / optimize_blocks): no unbounded contract yet",
-            "overlapping-block layouts for the interval forms"],
-    "C02": ["CompoundInterval.intersection / union / minus / has_overlap / contains / gap_list / extend_* with compound "
-            "operands: no unbounded contract yet",
+    "C01": ["CompoundInterval.relative_interval_to_parent_location / parent_to_relative_location / location_relative_to "
+            "(block-list rebuild followed by constructor re-sort / optimize_blocks): proved for 1..3 blocks with symbolic "
+            "coordinates, no contract for an arbitrary number of blocks",
+            "overlapping-block layouts for the interval forms (bounded tier only)"],
+    "C02": ["CompoundInterval.intersection / union / minus / has_overlap / contains / gap_list with compound operands: "
+            "proved for fixed block counts (1..3 x 1..2) with symbolic coordinates, no contract for arbitrary block counts",
+            "CompoundInterval.extend_absolute / extend_relative / shift_position (bounded tier only)",
             "random pairs over large genomes (replaced by the unbounded single-interval proofs)"],
 }
 
